@@ -213,5 +213,6 @@ MANIFEST_ENTRY = {
     'level_note': ('O1: relational check on the real record reader (file vs. file with one ignorable record inserted at any position); '
                    'O2: the real Atom constructor on a line whose unused columns are symbolic characters; O4: parser plumbing. '
                    'O3: default vs --protonate-all vs --keep-protons on the program\'s own hydrogens, whole pipeline on amino-acid micro-structures under a symbolic '
-                   'grid translation; hetero groups under --protonate-all are outside the claim.'),
+                   'grid translation; hetero groups under --protonate-all are outside the claim.'
+                   ' O3: option equivalences at pipeline level under a symbolic translation, incl. structures with a ligand and with an ion inside the bonding cut-off (protonate-all clause).'),
 }
